@@ -316,6 +316,8 @@ struct Fun7 {
     prog: Program,
     consts: Vec<f64>,
     nvar: usize,
+    /// the second-order block of every "constant" is present and non-zero (hand-built values)
+    nonzero_blocks: bool,
 }
 impl Fun7 {
     /// evaluate with the variables given by the driver; constant j is built by `mk(value, block mask)`
@@ -364,11 +366,20 @@ where
 {
     let n = x.len();
     let xv = OVector::<f64, D>::from_fn_generic(D::from_usize(n), U1, |i, _| x[i]);
+    // a "constant" may be hand-built with a non-zero Hessian block next to a zero (absent or explicit)
+    // gradient block: the driver must not infer one part from the presence of another
+    let hb = f.nonzero_blocks;
     let mk = |k: f64, m: u32| -> Dual2Vec<f64, f64, D> {
         Dual2Vec::new(
             k,
             if m & 1 == 1 { Derivative::none() } else { Derivative::some(zeros::<U1, D>(1, n)) },
-            if m & 2 == 2 { Derivative::none() } else { Derivative::some(zeros::<D, D>(n, n)) },
+            if hb {
+                Derivative::some(OMatrix::<f64, D, D>::from_fn_generic(D::from_usize(n), D::from_usize(n), |i, j| (1 + i + j) as f64 * 0.5 - if i == j { 2.0 } else { 0.0 } + k * 0.125))
+            } else if m & 2 == 2 {
+                Derivative::none()
+            } else {
+                Derivative::some(zeros::<D, D>(n, n))
+            },
         )
     };
     let (v, g, h) = hessian(|xs: OVector<Dual2Vec<f64, f64, D>, D>| f.eval(xs.iter().cloned().collect(), mask, 2, &mk)[0].clone(), xv);
@@ -385,12 +396,19 @@ where
     let xv = OVector::<f64, M>::from_fn_generic(M::from_usize(nx), U1, |i, _| x[i]);
     let yv = OVector::<f64, N>::from_fn_generic(N::from_usize(ny), U1, |i, _| x[nx + i]);
     type H<M, N> = HyperDualVec<f64, f64, M, N>;
+    let hb = f.nonzero_blocks;
     let mk = |k: f64, m: u32| -> H<M, N> {
         HyperDualVec::new(
             k,
             if m & 1 == 1 { Derivative::none() } else { Derivative::some(zeros::<M, U1>(nx, 1)) },
             if m & 2 == 2 { Derivative::none() } else { Derivative::some(zeros::<U1, N>(1, ny)) },
-            if m & 4 == 4 { Derivative::none() } else { Derivative::some(zeros::<M, N>(nx, ny)) },
+            if hb {
+                Derivative::some(OMatrix::<f64, M, N>::from_fn_generic(M::from_usize(nx), N::from_usize(ny), |i, j| (2 + i) as f64 * 0.25 - (j as f64) * 0.75 + k * 0.125))
+            } else if m & 4 == 4 {
+                Derivative::none()
+            } else {
+                Derivative::some(zeros::<M, N>(nx, ny))
+            },
         )
     };
     let (v, gx, gy, h) = partial_hessian(|xs: OVector<H<M, N>, M>, ys: OVector<H<M, N>, N>| f.eval(xs.iter().cloned().chain(ys.iter().cloned()).collect(), mask, 3, &mk)[0].clone(), xv, yv);
@@ -433,7 +451,11 @@ fn drv_case(d: &DrvCase, st: &mut Stats) -> Verdict {
             _ => {}
         }
     }
-    let f = Fun7 { prog, consts, nvar };
+    let nonzero_blocks = matches!(driver, 2 | 3) && d.n2 % 4 == 3;
+    if nonzero_blocks {
+        st.class("driver: constants with a non-zero second-order block beside zero first-order blocks");
+    }
+    let f = Fun7 { prog, consts, nvar, nonzero_blocks };
     let nb = match driver {
         2 => 2,
         3 => 3,
@@ -618,7 +640,7 @@ impl Property for C07 {
         }
     }
     fn rule() -> String {
-        "generated: a program (as in C03) or a HISTORY (a sequence of compound assignments += -= *= /= with dual and scalar right-hand sides, scalar ops and unary functions applied to an accumulator) on every type with optional parts (DualVec, Dual2Vec, HyperDualVec static and dynamic, nested ones); inputs whose optional blocks are all-zero with probability 45% are marked, and ALL 2^k representations (absent vs explicit zeros) of the k <= 6 marked blocks are enumerated per case. Oracle: every part of EVERY node (unwrap_generic) is numerically equal (==, so -0 = +0) across all representations, and the explicit-zero representation equals the reference algebra (32 u e). 10% of the cases call the operator impls of the public Derivative container directly (18 operator impls incl. &a-&b, tr_mul, scalar ops, compound assignments, and the single-lane SimdValue view replace / extract / splat / select, all shapes 1..3 x 1..3) against plain nalgebra matrices. Another 10% call the driver functions gradient, jacobian, try_jacobian, hessian and partial_hessian (dynamic sizes 1..4, static 2/3) on a generated function R^n -> R^m whose 1..2 constants are handed in either as absent or as explicit-zero parts (every block of every constant: all 2^(blocks*constants) representations), with outputs that are program nodes, bare constants or bare variables; the returned values, gradients, Jacobians and Hessians must be numerically equal across representations. Cases with a non-finite intermediate are out of domain. Non-trivial: in some representation an absent block of the left operand meets a present block of the right operand in -, * or /; driver cases: a constant is used (Jacobians: a bare-constant output precedes a non-constant output).".into()
+        "generated: a program (as in C03) or a HISTORY (a sequence of compound assignments += -= *= /= with dual and scalar right-hand sides, scalar ops and unary functions applied to an accumulator) on every type with optional parts (DualVec, Dual2Vec, HyperDualVec static and dynamic, nested ones); inputs whose optional blocks are all-zero with probability 45% are marked, and ALL 2^k representations (absent vs explicit zeros) of the k <= 6 marked blocks are enumerated per case. Oracle: every part of EVERY node (unwrap_generic) is numerically equal (==, so -0 = +0) across all representations, and the explicit-zero representation equals the reference algebra (32 u e). 10% of the cases call the operator impls of the public Derivative container directly (18 operator impls incl. &a-&b, tr_mul, scalar ops, compound assignments, and the single-lane SimdValue view replace / extract / splat / select, all shapes 1..3 x 1..3) against plain nalgebra matrices. Another 10% call the driver functions gradient, jacobian, try_jacobian, hessian and partial_hessian (dynamic sizes 1..4, static 2/3) on a generated function R^n -> R^m whose 1..2 constants are handed in either as absent or as explicit-zero parts (every block of every constant: all 2^(blocks*constants) representations), with outputs that are program nodes, bare constants or bare variables (hessian / partial_hessian: a quarter of the cases give the constants a non-zero second-order block beside zero first-order blocks); the returned values, gradients, Jacobians and Hessians must be numerically equal across representations. Cases with a non-finite intermediate are out of domain. Non-trivial: in some representation an absent block of the left operand meets a present block of the right operand in -, * or /; driver cases: a constant is used (Jacobians: a bare-constant output precedes a non-constant output).".into()
     }
     fn assumptions() -> Vec<String> {
         vec!["k <= 6 marked blocks per case; values finite".into()]
